@@ -746,6 +746,14 @@ func runWorld(c *fw.Ctx, w *world) {
 	if len(w.MG2Paths) > 0 {
 		k.checkMultiget(w, w.MG2Paths)
 	}
+	// ... addressed to a requested object instead of the collection
+	for i := range w.Objs {
+		if o := &w.Objs[i]; o.Fail == 0 && strings.HasPrefix(o.Path, w.MGColl) {
+			k.checkMultigetAt(w, o.Path, []string{o.Path})
+			k.checkMultigetAt(w, o.Path, nil)
+			break
+		}
+	}
 	k.checkQuery(w)
 	k.checkPut(w)
 }
@@ -926,9 +934,22 @@ func (k *chk) checkGet(o *nObj) {
 
 // --- REPORT: multiget and query ---
 
-func (k *chk) checkMultiget(w *world, paths []string) {
+func (k *chk) checkMultiget(w *world, paths []string) { k.checkMultigetAt(w, w.MGColl, paths) }
+
+// checkMultigetAt sends the multiget to the request path at: the collection,
+// or - RFC 4791 section 7.9 / RFC 6352 section 8.7 allow any Request-URI - a
+// requested object itself. An empty list stands for the request path (the
+// clients document that).
+func (k *chk) checkMultigetAt(w *world, at string, argPaths []string) {
 	const group = "report"
 	op := map[string]string{"caldav": "MultiGetCalendar", "carddav": "MultiGetAddressBook"}[k.proto]
+	paths := argPaths
+	if len(paths) == 0 {
+		paths = []string{at}
+	}
+	if at != w.MGColl {
+		k.c.Observe("multiget: request path", k.proto+": sent to a requested object itself", 1)
+	}
 	anyFail := false
 	for _, p := range paths {
 		if o := w.obj(p); o == nil || o.Fail != 0 {
@@ -937,7 +958,7 @@ func (k *chk) checkMultiget(w *world, paths []string) {
 	}
 	var got []nObj
 	var err error
-	if !k.guard(group, op, func() { got, err = k.st.multiget(w.MGColl, paths) }) {
+	if !k.guard(group, op, func() { got, err = k.st.multiget(at, argPaths) }) {
 		return
 	}
 	k.observeCall(op, err, anyFail)
